@@ -187,4 +187,29 @@ func OrderedDaemon.ShutdownAndWait
   ghost before call Once.Do: assert arg0 == addr(d.stopOnce)
   ghost after call Once.Do: waited = true
   ghost at return: assert waited
+-- Run: after starting the workers it waits for the WaitGroup of EVERY shutdown order the daemon has (a snapshot taken in
+-- one read section: one entry per key of the map - as many as the map has - each a WaitGroup of the map, none nil) - it
+-- returns only after every started worker has returned, not when the shutdown begins.
+-- (that the entries are pairwise different WaitGroups is visible in the code - one per key produced by the range - but is
+-- not part of the contract: it would need an existential witness per key)
+func OrderedDaemon.waitGroupsForAllShutdownOrders
+  opt sequential
+  requires d != nil && unlocked(d.lock)
+  loop 1 invariant rheld(d.lock) && len(waitGroups) == len(d.wgPerSameShutdownOrder) && i == visitedcount() && i <= len(waitGroups)
+  loop 1 invariant forall j Int :: 0 <= j && j < i ==> waitGroups[j] != nil
+  ensures unlocked(d.lock)
+  ensures len(r0) == len(d.wgPerSameShutdownOrder)
+  ensures forall j Int :: 0 <= j && j < len(r0) ==> r0[j] != nil
+func OrderedDaemon.Run
+  opt sequential
+  requires d != nil && unlocked(d.lock) && (!aload(d.stopped) ==> d.workers != nil)
+  modifies everything
+  ghost local snap (Array Int Int)       -- the wait groups of the snapshot, by position (ghost)
+  ghost local n Int
+  ghost local o Int                      -- offset of the snapshot in its backing array (ghost)
+  ghost after call OrderedDaemon.waitGroupsForAllShutdownOrders: snap = elems(result)
+  ghost after call OrderedDaemon.waitGroupsForAllShutdownOrders: n = len(result)
+  ghost after call OrderedDaemon.waitGroupsForAllShutdownOrders: o = off(result)
+  loop 1 invariant forall j Int :: 0 <= j && j <= rangeindex ==> sel(snap, o + j) == nil || sel(sync.wgwaited, sel(snap, o + j))
+  ghost at return: assert forall j Int :: 0 <= j && j < n ==> sel(snap, o + j) == nil || sel(sync.wgwaited, sel(snap, o + j))
 @*/
